@@ -195,8 +195,9 @@ def run_property(prop, tier, runs, *, level="other", explanation="", assumptions
     )
     if extra:
         ev["coverage"].update(extra)
-    os.makedirs(os.path.join(ROOT, "evidence"), exist_ok=True)
-    with open(os.path.join(ROOT, "evidence", f"{prop}.json"), "w") as fh:
+    evdir = os.environ.get("VERIF_EVIDENCE_DIR") or os.path.join(ROOT, "evidence")  # (seed evaluation redirects)
+    os.makedirs(evdir, exist_ok=True)
+    with open(os.path.join(evdir, f"{prop}.json"), "w") as fh:
         json.dump(_jsonable(ev), fh, indent=1)
     print(f"{prop} [{tier}] paths={tot['paths']} obligations={tot['obligations']} discharged={tot['discharged']} "
           f"solver_calls={tot['nsolve']} solver_s={tot['solve_s']:.1f} wall_s={wall:.1f} exit={code}")
